@@ -814,8 +814,18 @@ where
         - Cond::indexes()
             .map(|x| (uyhx - conds[x].borrow().uncertainty) * wx.b()[x])
             .sum::<V>();
+    // u >= 0 and every b[y] >= 0 hold exactly; where the exact value is 0 the subtraction leaves a rounding residue of either
+    // sign, and a residue below -epsilon is outside the tolerance of the checked constructors
+    let u = if u < V::zero() { V::zero() } else { u };
     let p = wx.projection();
-    let b = U::from_fn(|y| T::indexes().map(|x| p[x] * cond_p[x][y]).sum::<V>() - ay[y] * u);
+    let b = U::from_fn(|y| {
+        let b = T::indexes().map(|x| p[x] * cond_p[x][y]).sum::<V>() - ay[y] * u;
+        if b < V::zero() {
+            V::zero()
+        } else {
+            b
+        }
+    });
     Opinion::<U, V>::from((Simplex::normalized(b, u), ay))
 }
 
@@ -928,7 +938,15 @@ where
         let wprop_u_yx = T::indexes().map(|x| weighted_u_yx[x]).sum::<V>();
         U::map(|y| {
             let u = max_u_xy[y] * (wprop_u_yx + irrelevance_yx[y] - wprop_u_yx * irrelevance_yx[y]);
-            let b = T::from_fn(|x| p_xy[y][x] - u * ax[x]);
+            // u <= min_x p_xy/ax holds exactly; a negative value here is the rounding residue of the subtraction
+            let b = T::from_fn(|x| {
+                let b = p_xy[y][x] - u * ax[x];
+                if b < V::zero() {
+                    V::zero()
+                } else {
+                    b
+                }
+            });
             Simplex::normalized(b, u)
         })
     }
